@@ -296,7 +296,7 @@ def run(c):
         c.notes['environments'] = envnote
     work = tempfile.mkdtemp(prefix='c20-', dir=os.path.join(BUILD, 'cache') if os.path.isdir(os.path.join(BUILD, 'cache')) else None)
     viol = []          # (class, payload)
-    hist = {'cls': {}, 'dm': {}, 'varying': {}, 'exit_status': {}, 'too_slow_left_out': 0}
+    hist = {'cls': {}, 'dm': {}, 'varying': {}, 'varying_without_ids_not_judged': {}, 'exit_status': {}, 'too_slow_left_out': 0}
     evaluations = 0
     nontriv = set()
     try:
@@ -363,10 +363,10 @@ def run(c):
                 nontriv.add((i, be))
             if cls is None:
                 continue
-            hist['varying'][be + ':' + cls] = hist['varying'].get(be + ':' + cls, 0) + 1
             if not d['has_ids']:
-                hist['varying']['(documents without ids, not judged)'] = hist['varying'].get('(documents without ids, not judged)', 0) + 1
+                hist['varying_without_ids_not_judged'][be + ':' + cls] = hist['varying_without_ids_not_judged'].get(be + ':' + cls, 0) + 1
                 continue
+            hist['varying'][be + ':' + cls] = hist['varying'].get(be + ':' + cls, 0) + 1
             key = (be, cls)
             if key in found and len(found[key][0]['xml']) <= len(d['xml']):
                 continue
